@@ -23,6 +23,7 @@ fn main() {
         "used_qubits_other_ops" => used_qubits(&input, false),
         "serialize_repeat" => serialize_repeat(&input),
         "literal_exact" => literal_exact(&input),
+        "real_literal" => real_literal(&input),
         "expr_literal" => expr_literal(&input),
         "loop_runs" => loop_runs(&input),
         "subst_signed_zero" => subst_signed_zero(&input),
@@ -1411,6 +1412,30 @@ fn extern_roundtrip(text: &str) -> Result<(), String> {
         if back != *signature {
             return Err(format!("signature of {name} prints as `{printed}`, which parses to a different signature"));
         }
+    }
+    Ok(())
+}
+
+/// C05 (reals): each line is a decimal real literal; as an operand (`MOVE r <literal>`) and as an expression it must
+/// be the nearest f64 to its mathematical value (Rust's own `str::parse::<f64>` is correctly rounded), or be rejected
+fn real_literal(text: &str) -> Result<(), String> {
+    use quil_rs::expression::Expression;
+    use quil_rs::instruction::{ArithmeticOperand, Move};
+    for line in text.lines().map(str::trim).filter(|l| !l.is_empty()) {
+        let Ok(want) = line.parse::<f64>() else { continue };
+        if let Ok(p) = Program::from_str(&format!("MOVE r {line}")) {
+            if let Some(Instruction::Move(Move { source: ArithmeticOperand::LiteralReal(v), .. })) = p.body_instructions().next() {
+                if v.to_bits() != want.to_bits() {
+                    return Err(format!("operand `{line}` became {v:e}, the nearest f64 is {want:e}"));
+                }
+            }
+        }
+        if let Ok(Expression::Number(c)) = Expression::from_str(line) {
+            if c.re.to_bits() != want.to_bits() || c.im != 0.0 {
+                return Err(format!("expression `{line}` became {c}, the nearest f64 is {want:e}"));
+            }
+        }
+        println!("{line} ok");
     }
     Ok(())
 }
